@@ -36,7 +36,7 @@ def invariant(ctx, items, what):
             ctx.check(items[j][1] != a, what + ": no address is leased to two IDs")
 
 
-def o_request(ctx, entries, via_lvl, second=False):
+def o_request(ctx, entries, via_lvl, second=False, intruder=False):
     clock = fresh_env(ctx)
     radio, node, _ = build_node(ctx, clock, "master", 0)
     link, _o = per_packet_link(ctx, radio)
@@ -52,12 +52,26 @@ def o_request(ctx, entries, via_lvl, second=False):
     radio.inject_rx(ctx.int("pipe", 0, 5), frame)
     before = [list(e) for e in tab]
     sent0 = len(radio.sent)
+    if intruder:
+        # while the master waits for the NETWORK_ACK of its (routed) reply, a look-up from a connected node arrives; the ACK never
+        # does, so the reply is sent again: it must still be the reply
+        st = {"done": False}
+
+        def on_look():
+            if not st["done"] and len(radio.sent) > sent0 and radio.listening():
+                st["done"] = True
+                radio.inject_rx(3, [0o3, 0, 0, 0, 9, 0, 196, 0, ctx.int("looked_up_id", 1, 255)])
+        clock.on_look = on_look
     node.update()
+    clock.on_look = None
     after = table_items(node)
     invariant(ctx, after, "after an address request")
     mine = [a for k, a in after if bool(k == rid)]
     ctx.check(len(mine) <= 1, "the requesting ID has a single lease")
-    pk = [e for e in distinct_packets(radio, sent0)]
+    pk = [e for e in distinct_packets(radio, sent0) if not intruder or bool(e["data"][6] == 128)]
+    if intruder:
+        ctx.check(st["done"], "the scenario was reached (the master waited for a NETWORK_ACK)")
+        ctx.check(len(pk) >= 2, "the reply is sent again when its NETWORK_ACK does not arrive")
     had = [a for k, a in before if bool(k == rid)]
     shift = 3 * via_lvl
     if mine and not (had and bool(had[0] == mine[0]) and not pk):
@@ -215,6 +229,8 @@ def jobs(tier):
         for via in range(4):
             out.append(Job("request-step", o_request, dict(entries=k, via_lvl=via), cost=4 ** k, shards=(1 if k < 3 else 4 if k == 3 else 12)))
         out.append(Job("release-step", o_release, dict(entries=k), cost=2 ** k))
+    for via in ((2,) if tier == "quick" else (2, 3)):
+        out.append(Job("request-step-with-an-intruding-look-up", o_request, dict(entries=1, via_lvl=via, intruder=True), cost=20, shards=2))
     for count in ((0, 1, 128, 255) if tier == "quick" else (0, 1, 2, 64, 127, 128, 200, 254, 255)):
         for as_bin in (False, True):
             out.append(Job("save-load-concrete-real-json", o_persist_big, dict(count=count, as_bin=as_bin), cost=2))
